@@ -129,6 +129,7 @@ pub fn run(seed: u64, consts_path: &str, thorough: bool, out: &mut Vec<Value>) {
     let lens: Vec<usize> = if thorough { vec![0, 1, 31, 32, 33, 135, 136, 137, 271, 272, 273, 1000, 4095, 4096, 4097, 8192, 10000] } else { vec![0, 1, 135, 136, 137, 272, 300, 4096, 4097] };
     let mut prev: Vec<u8> = Vec::new();
     let mut msgs: Vec<Vec<u8>> = Vec::new();
+    let mut hcount = 0usize;
     for n in lens {
         let m: Vec<u8> = (0..n).map(|_| r.gen()).collect();
         msgs.push(m.clone());
@@ -147,7 +148,13 @@ pub fn run(seed: u64, consts_path: &str, thorough: bool, out: &mut Vec<Value>) {
         let _ = n;
         let h = catch(AssertUnwindSafe(|| hash_to_field(&m)));
         let mut o1 = Vec::new();
-        let _ = rln::public::hash(Cursor::new(m.clone()), &mut o1);
+        // the byte-level entry point takes any reader: at once, a few bytes per call, or with interruptions to retry
+        hcount += 1;
+        let _ = match hcount % 3 {
+            0 => rln::public::hash(Cursor::new(m.clone()), &mut o1),
+            1 => rln::public::hash(crate::misc_exec::Chunked { data: m.clone(), pos: 0, chunk: 61 }, &mut o1),
+            _ => rln::public::hash(crate::misc_exec::Interrupting { inner: crate::misc_exec::Chunked { data: m.clone(), pos: 0, chunk: 1000 }, calls: 0 }, &mut o1),
+        };
         let ib = rln::ffi::Buffer { ptr: m.as_ptr(), len: m.len() };
         let mut ob = rln::ffi::Buffer { ptr: std::ptr::null(), len: 0 };
         let okf = rln::ffi::hash(&ib, &mut ob);
